@@ -145,6 +145,7 @@ func genCfg() gen.Cfg {
 	cfg := gen.DefaultCfg()
 	cfg.Off = genOff
 	cfg.Count = func(f string) { hx.Known("excluded:" + f) }
+	cfg.DebugInfo = true
 	return cfg
 }
 
